@@ -1763,6 +1763,12 @@ fn gen_abandon(rng: &mut Rng) -> Value {
     if rng.chance(1, 8) {
         // a commit that fails because of an I/O error is also a writer that is gone: one keyed write, one errno somewhere in it
         let st = json!({"k":"api","op":"write","entry":*rng.pick(&["write","opts","create"]),"key":1,"val":0,"mode":f.1,"opts":{}});
+        if rng.chance(1, 2) {
+            // the same process goes on to write another key: nothing of the failed commit may ride along
+            let next = json!({"k":"api","op":"write","entry":*rng.pick(&["write","opts"]),"key":0,"val":1,"mode":f.1,"opts":{}});
+            return json!({"keys":keys,"vals":vals,"prelude":prelude,"clients":[{"bin":f.0,"steps":[st, next]}],"post":post,"strict_tmp":true,
+                   "plan":{"kind":"enumerate","mode":"errno","victim_op":0,"no_persist":true},"oracle":"fault"});
+        }
         return json!({"keys":keys,"vals":vals,"prelude":prelude,"clients":[{"bin":f.0,"steps":[st]}],"post":post,"strict_tmp":true,
                "plan":{"kind":"enumerate","mode":"errno"},"oracle":"fault"});
     }
